@@ -408,9 +408,15 @@ def scen_race(ctx, exp, name, plan):
     if res.violated == 'TraceSafe':
         ctx.violation('trace-unsafe race=%s' % name, {'procs': procs})
     elif not accepted:
-        if res.error:
+        if res.error and 'timeout' in res.error:
+            # the search for a witness interleaving did not finish (many processes, a loaded machine): no verdict on
+            # this trace; the outcomes of the race itself (every request served, right matrices, one content per
+            # entry) were judged above and below
+            ctx.skip('trace validation of race %s timed out without a verdict (%d processes)' % (name, len(procs)))
+        elif res.error:
             raise MachineryError('CompileTrace failed: %s\n%s' % (res.error, res.stdout[-1500:]))
-        ctx.violation('trace-rejected race=%s: no interleaving of the recorded per-process events is a behaviour of '
+        else:
+            ctx.violation('trace-rejected race=%s: no interleaving of the recorded per-process events is a behaviour of '
                       'CompileCache' % name, {'procs': procs})
     # a content hash logged at import time must be unique per module name ("never overwritten by different content")
     shas = {}
